@@ -952,6 +952,7 @@ package gts
 //@   requires forall k in 0..len(ss): !isnil(ss[k])
 //@   ensures !isnil(out)
 //@   ensures len(ss) >= 2 ==> fresh(bytesOf(out))
+//@   callpre Expand(i, n): i == 0 && n == len(p)
 //@   assigns nothing
 //@   loop 1: invariant fresh(p) && !isnil(head)
 //@   loop 1: decreases len(tail) - idx1
